@@ -35,7 +35,7 @@ COMPONENTS = {"real": ["Model.__init__/update/finish", "ladim.main.main (sampled
 ASSUMPTIONS = ["the shims override only methods the base classes have and delegate unchanged"]
 TIERS = {"quick": dict(runs=500, budget_s=50, shrink=100),
          "thorough": dict(runs=50000, budget_s=900, shrink=200)}
-REQUIRED_PROBES = ["cold", "warm", "via_main", "plugin_relative_path", "plugin_module_name", "plugin_same_basename_two_dirs", "plugin_dotted_stem", "grid_plugin_with_close", "plain_run_before_and_after", "ibm_section_with_module_only", "plugin_named_like_a_ladim_module", "ibm_kill_checked",
+REQUIRED_PROBES = ["cold", "warm", "via_main", "plugin_relative_path", "plugin_module_name", "plugin_same_basename_two_dirs", "plugin_dotted_stem", "grid_plugin_with_close", "plain_run_before_and_after", "ibm_section_with_module_only", "plugin_named_like_a_ladim_module", "ibm_derived_from_base_class", "ibm_kill_checked",
                    "late_release", "scalar_in_record"]
 
 PROFILE = gen.profile(
@@ -70,6 +70,7 @@ def generate(seed: int, tier: str, idx: int) -> dict:
         gen.make_restartable(sc)
     plan["grid_close"] = s.chance(0.3)      # the user's grid plug-in has a close() of its own
     plan["ibm_no_options"] = s.chance(0.3)
+    plan["ibm_derived"] = stream(seed, "c19.derived").chance(0.5)
     # the same plain set-up (no plug-in anywhere, no IBM section) run before and after the run with the plug-ins
     plan["isolation"] = plan["start"] == "cold" and s.chance(0.3)
     # the other plug-in points (grid, forcing, output, state, time, release, tracker) by path or by dotted module name
@@ -90,7 +91,7 @@ def _decoy() -> None:
         sys.path.append(str(DECOY_DIR))
 
 
-def _install_plugin(d: Path, how: str, twin: bool = False):
+def _install_plugin(d: Path, how: str, twin: bool = False, derived: bool = False):
     """returns the function that edits the configuration's ibm.module (and, for twin, forcing.module)
 
     Every run gets its own copy of the plug-in carrying a token unique to the run, so that a loader that
@@ -101,6 +102,11 @@ def _install_plugin(d: Path, how: str, twin: bool = False):
                          f"        r = recorder.REC\n        if r is not None:\n            r.plugin_marks.append('file:{token}')\n"
                          "            r.on_init(\"ibm\", self, modules)")
     assert marked != src
+    if derived:
+        # the user's class derives from LADiM's IBM base class, as the documentation suggests
+        marked2 = marked.replace("\nclass IBM:\n", "\nfrom ladim.ibm import IBM as _LadimIBM\n\n\nclass IBM(_LadimIBM):\n")
+        assert marked2 != marked
+        marked = marked2
     if twin:
         # the IBM and the forcing come from two different files with the same base name
         (d / "a").mkdir(exist_ok=True)
@@ -261,7 +267,9 @@ def execute(sc) -> Result:
     d = world.new_dir()
     ref = refmodel.RefWorld(sc)
     try:
-        edit0 = _install_plugin(d, pl["plugin"], twin=pl["plugin"] == "twin")
+        edit0 = _install_plugin(d, pl["plugin"], twin=pl["plugin"] == "twin", derived=bool(pl.get("ibm_derived")))
+        if pl.get("ibm_derived") and pl["plugin"] != "name":
+            res.probes["ibm_derived_from_base_class"] += 1
 
         if pl.get("grid_close"):
             shim_src = (world.PLUGIN_DIR / "shim.py").read_text()
